@@ -297,10 +297,10 @@ def shard(ctx, arg):
         rng.shuffle(steps)
         witness = {"features": feats, "call_order": steps, "pairs": [[hex(i), len(v)] for i, v in pairs],
                    "model": {n: [[s.describe() for s in b] for b in bl] for n, bl in model.items() if bl}}
-        if len(block) < 1500:
-            witness["signing_block_hex"] = block.hex()
-        if len(raw) < 1500:
-            witness["apk_hex"] = raw.hex()
+        if len(block) < 3000:
+            witness["signing_block"] = block  # stored as {"hex": ..., "len": ...}
+        if len(raw) < 3000:
+            witness["apk"] = raw
         observe(ctx, APK, raw, pairs, model, steps, witness, real)
         mx = lambda f: max([len(f(s)) for bl in model.values() for b in bl[:1] for s in b] or [0])
         ctx.sig(tuple(feats["present"]), tuple(feats["dups"]), feats["unknown"], feats["pad"],
@@ -368,3 +368,37 @@ def run(ctx):
     ctx.require_counter("shipped_blocks_compared", 50)
     ctx.require_counter("parsed_certificate_getters", 50)
     ctx.min_distinct = 100
+
+
+def replay_shard(ctx, arg):
+    """re-run stored witnesses: the stored APK bytes, else the stored signing block inserted into a fresh minimal APK, else the shipped file"""
+    from androguard.core.apk import APK
+    rng = ctx.rng("c33-replay")
+    for w in arg:
+        if "shipped_file" in w:
+            shipped(ctx, [os.path.join(REPO, w["shipped_file"])])
+            ctx.sample({"shipped_file": w["shipped_file"]})
+            continue
+        full = lambda k: k in w and len(w[k]["hex"]) == 2 * w[k]["len"]
+        if full("apk"):
+            raw = bytes.fromhex(w["apk"]["hex"])
+        elif full("signing_block"):
+            raw = S.insert_signing_block(base_apk(rng), bytes.fromhex(w["signing_block"]["hex"]))
+        else:
+            ctx.inconclusive("witness stores neither the APK nor the signing block bytes (too large); re-run the check with the recorded seed instead")
+            continue
+        pairs = S.parse_pairs(S.locate_signing_block(raw)[1])
+        model = {n: [S.parse_signers(v, v3) for i, v in pairs if i == pid] for n, (pid, v3) in SCHEMES.items()}
+        order = w.get("call_order") or ["flags", "dup", "v2", "v3", "v31"]
+        observe(ctx, APK, raw, pairs, model, order, {"pairs": [[hex(i), len(v)] for i, v in pairs], "call_order": order, "apk": raw if len(raw) < 3000 else None})
+        ctx.sig("replay", tuple(i for i, _ in pairs))
+        ctx.sample({"pairs": [[hex(i), len(v)] for i, v in pairs], "call_order": order})
+
+
+def replay(ctx, path):
+    import json
+    with open(path) as f:
+        j = json.load(f)
+    ctx.rule = "replay of the stored witnesses of mechanism %s" % j.get("mechanism")
+    ctx.min_distinct = 1
+    ctx.run_shards(MOD, "replay_shard", [j["witnesses"]], timeout=300)
